@@ -51,6 +51,14 @@ pub fn universe() -> Universe {
             vec![v(vec![Bool, Void, Int], true), v(vec![Enum(1)], false)],
             // 7: several declared fields of which at most one is not void (D46)
             vec![v(vec![Bool, Void], false), v(vec![Void, Void], true), v(vec![Void, Int], true), v(vec![], false)],
+            // 8: payload of a struct with no fields
+            vec![v(vec![Struct(5)], false), v(vec![], false)],
+            // 9: GENERIC enum `En9<T>` with named fields, used at T := bool (`GENERIC_ENUM`)
+            vec![v(vec![Bool, Int], true), v(vec![Bool], false)],
+            // 10, 11, 12: single-variant enums (irrefutable variant patterns in let / for)
+            vec![v(vec![Int], false)],
+            vec![v(vec![Int, Bool], true)],
+            vec![v(vec![], false)],
         ],
         structs: vec![
             vec![Bool, Bool],
@@ -58,6 +66,8 @@ pub fn universe() -> Universe {
             vec![Enum(1), Str],
             vec![Void],
             vec![Tuple(vec![Bool, Bool]), Enum(0)],
+            // 5: a product with no fields
+            vec![],
         ],
     }
 }
@@ -75,6 +85,8 @@ pub fn scrutinee_types() -> Vec<Ty> {
         t(vec![t(vec![Bool, Bool]), Enum(1)]), t(vec![t(vec![Bool, Void]), Int]), t(vec![Enum(4), Bool]),
         t(vec![Bool, Float, Str]), t(vec![Enum(6), Bool]), t(vec![Struct(3), Bool]), t(vec![Enum(5), Enum(0)]),
         t(vec![Bool, Bool, Bool]), t(vec![Int, Int]),
+        Struct(5), t(vec![Int, Struct(5)]), Enum(8), Enum(9), t(vec![Enum(9), Bool]),
+        Enum(10), Enum(11), Enum(12), t(vec![Enum(10), Enum(12)]), t(vec![Enum(11), Int]),
     ]
 }
 
@@ -83,6 +95,9 @@ pub fn scrutinee_types() -> Vec<Ty> {
 pub fn scrutinee_types_d46() -> Vec<Ty> {
     vec![Ty::Enum(7), Ty::Tuple(vec![Ty::Enum(7), Ty::Bool])]
 }
+
+/// enum 9 is declared `type En9<T> = …` and used at `En9<bool>`: its first field has type `T`
+pub const GENERIC_ENUM: usize = 9;
 
 pub const INTS: [i64; 3] = [0, 1, 2];
 pub const INT_FRESH: i64 = 7;
@@ -205,6 +220,7 @@ impl Universe {
             Ty::Str => "string".into(),
             Ty::Tuple(ts) => format!("({})", ts.iter().map(|t| self.ty_src(t)).collect::<Vec<_>>().join(", ")),
             Ty::Struct(id) => format!("St{id}"),
+            Ty::Enum(id) if *id == GENERIC_ENUM => format!("En{id}<bool>"),
             Ty::Enum(id) => format!("En{id}"),
         }
     }
@@ -249,7 +265,8 @@ impl Universe {
             s.push_str("}\n");
         }
         for (id, vars) in self.enums.iter().enumerate() {
-            s.push_str(&format!("type En{id} =\n"));
+            let generic = id == GENERIC_ENUM;
+            s.push_str(&format!("type En{id}{} =\n", if generic { "<T>" } else { "" }));
             for (i, var) in vars.iter().enumerate() {
                 s.push_str(&format!("  | Vr{id}x{i}"));
                 if !var.fields.is_empty() {
@@ -257,7 +274,10 @@ impl Universe {
                         .fields
                         .iter()
                         .enumerate()
-                        .map(|(j, f)| if var.named { format!("g{j}: {}", self.ty_src(f)) } else { self.ty_src(f) })
+                        .map(|(j, f)| {
+                            let t = if generic && j == 0 { "T".to_string() } else { self.ty_src(f) };
+                            if var.named { format!("g{j}: {t}") } else { t }
+                        })
                         .collect();
                     s.push_str(&format!("({})", fs.join(", ")));
                 }
@@ -988,6 +1008,10 @@ pub fn gen_cases(u: &Universe, rng: &mut Rng, quick: bool) -> Vec<MatchCase> {
         VariantPos(4, 1, b(Tuple(vec![Bool(true), Variant0(4, 0, false)])), false),
         VariantPos(4, 1, b(Tuple(vec![Wild, VariantPos(4, 1, b(Tuple(vec![Wild, Wild])), false)])), false),
     ]});
+    // --- a match with no arms at all, on every scrutinee type (the witness is built from the type alone)
+    for ty in scrutinee_types().into_iter().chain(scrutinee_types_d46()) {
+        out.push(MatchCase { ty, arms: vec![], origin: "zero-arms" });
+    }
     // --- systematic: all arm lists of length 1 and 2 over the depth-1 pool of small types
     let small = [Ty::Bool, Ty::Void, Ty::Enum(0), Ty::Enum(1), Ty::Enum(2), Ty::Enum(3), Ty::Struct(3),
         Ty::Tuple(vec![Ty::Bool, Ty::Bool]), Ty::Tuple(vec![Ty::Void, Ty::Void]), Ty::Struct(0), Ty::Int, Ty::Float, Ty::Str];
@@ -1186,6 +1210,11 @@ pub const PLACEMENTS: [&str; 17] = [
     "field-default", "else-body",
 ];
 
+/// a match without arms has no type of its own: it only stands where the context gives it one
+pub fn placement_for(arms: &[Pat], pl: usize) -> usize {
+    if arms.is_empty() && matches!(PLACEMENTS[pl], "scrutinee" | "lambda-body") { 0 } else { pl }
+}
+
 /// the program with the match at placement `pl`; arm k yields k
 pub fn match_program_at(u: &Universe, ty: &Ty, scrutinee: &Val, arms: &[Pat], pl: usize) -> MatchProgram {
     let v = u.val_src(scrutinee, ty);
@@ -1201,20 +1230,20 @@ pub fn match_program_at(u: &Universe, ty: &Ty, scrutinee: &Val, arms: &[Pat], pl
     }
     m.push('}');
     let (pre, post): (String, String) = match PLACEMENTS[pl] {
-        "let-init" => ("let r = ".into(), "\nprintln(r)\n".into()),
-        "arm-body" => ("let r = match true {\n  true -> ".into(), "\n  false -> 0\n}\nprintln(r)\n".into()),
+        "let-init" => ("let r: int = ".into(), "\nprintln(r)\n".into()),
+        "arm-body" => ("let r: int = match true {\n  true -> ".into(), "\n  false -> 0\n}\nprintln(r)\n".into()),
         "scrutinee" => ("let r = match (".into(), ") {\n  _ -> 0\n}\nprintln(r)\n".into()),
         "fn-body" => ("fn ff() -> int {\n  ".into(), "\n}\nprintln(ff())\n".into()),
         "lambda-body" => ("let gg = () -> {\n  ".into(), "\n}\nprintln(gg())\n".into()),
-        "task-block" => ("task {\n  let r = ".into(), "\n  println(r)\n}\n".into()),
-        "block-expr" => ("let r = {\n  let q = 1\n  ".into(), "\n}\nprintln(r)\n".into()),
-        "if-body" => ("if true {\n  let r = ".into(), "\n  println(r)\n}\n".into()),
-        "else-body" => ("if false {\n  println(0)\n} else {\n  let r = ".into(), "\n  println(r)\n}\n".into()),
-        "while-body" => ("var go = true\nwhile go {\n  go = false\n  let r = ".into(), "\n  println(r)\n}\n".into()),
-        "for-body" => ("for i in 1 {\n  let r = ".into(), "\n  println(r)\n}\n".into()),
+        "task-block" => ("task {\n  let r: int = ".into(), "\n  println(r)\n}\n".into()),
+        "block-expr" => ("let r: int = {\n  let q = 1\n  ".into(), "\n}\nprintln(r)\n".into()),
+        "if-body" => ("if true {\n  let r: int = ".into(), "\n  println(r)\n}\n".into()),
+        "else-body" => ("if false {\n  println(0)\n} else {\n  let r: int = ".into(), "\n  println(r)\n}\n".into()),
+        "while-body" => ("var go = true\nwhile go {\n  go = false\n  let r: int = ".into(), "\n  println(r)\n}\n".into()),
+        "for-body" => ("for i in 1 {\n  let r: int = ".into(), "\n  println(r)\n}\n".into()),
         "call-arg" => ("fn idf(x: int) -> int {\n  x\n}\nlet r = idf(".into(), ")\nprintln(r)\n".into()),
         "array-elem" => ("let r = [0, ".into(), "]\nprintln(r.len())\n".into()),
-        "tuple-elem" => ("let r = (0, ".into(), ")\nprintln(1)\n".into()),
+        "tuple-elem" => ("let r: (int, int) = (0, ".into(), ")\nprintln(1)\n".into()),
         "struct-elem" => ("type Wrap = {\n  w: int\n}\nlet r = Wrap(".into(), ")\nprintln(r.w)\n".into()),
         "assign-index" => ("let arr = [0, 0, 0, 0, 0, 0, 0]\narr[".into(), "] = 5\nprintln(arr[0])\n".into()),
         "field-default" => ("type Dflt = {\n  d: int = ".into(), "\n}\nprintln(1)\n".into()),
@@ -1313,4 +1342,42 @@ pub fn sibling_or_pat(u: &Universe, ty: &Ty, rng: &mut Rng) -> Option<Pat> {
         }
         _ => None,
     }
+}
+
+// ---------------------------------------------------------------- let / var / for destructuring (D96, D97)
+pub const LET_FORMS: [&str; 5] = ["let", "let-annotated", "var", "for", "let-in-fn"];
+
+/// `let (pat) = value` in one of the statement forms; `uses` = statements using the bound variables
+pub fn let_program(u: &Universe, ty: &Ty, p: &Pat, v: &Val, form: usize, uses: &[String]) -> String {
+    let mut src = u.decls_src();
+    let annotated = LET_FORMS[form % LET_FORMS.len()] == "let-annotated";
+    let pat = format!("({})", if annotated { u.pat_src(p) } else { u.pat_src(&qualify_all(p)) });
+    let val = u.val_src(v, ty);
+    let body: String = uses.iter().map(|l| format!("  {l}\n")).collect();
+    match LET_FORMS[form % LET_FORMS.len()] {
+        "let" => src.push_str(&format!("let {pat} = {val}\n{}", body.replace("  ", ""))),
+        "let-annotated" => src.push_str(&format!("let {pat}: {} = {val}\n{}", u.ty_src(ty), body.replace("  ", ""))),
+        "var" => src.push_str(&format!("var {pat} = {val}\n{}", body.replace("  ", ""))),
+        "for" => src.push_str(&format!("let arr = [{val}]\nfor {pat} in arr {{\n{body}}}\n")),
+        _ => src.push_str(&format!("fn ff() -> int {{\n  let {pat} = {val}\n{body}  0\n}}\nprintln(ff())\n")),
+    }
+    src.push_str("println(\"end\")\n");
+    src
+}
+
+/// every variant pattern written with its enum name (an un-annotated `let` cannot infer it)
+pub fn qualify_all(p: &Pat) -> Pat {
+    match p {
+        Pat::Tuple(ps) => Pat::Tuple(ps.iter().map(qualify_all).collect()),
+        Pat::Struct(id, ps, o) => Pat::Struct(*id, ps.iter().map(qualify_all).collect(), o.clone()),
+        Pat::Variant0(e, i, _) => Pat::Variant0(*e, *i, true),
+        Pat::VariantPos(e, i, q, _) => Pat::VariantPos(*e, *i, Box::new(qualify_all(q)), true),
+        Pat::VariantNamed(e, i, ps, o, _) => Pat::VariantNamed(*e, *i, ps.iter().map(qualify_all).collect(), o.clone(), true),
+        Pat::Or(l, r) => Pat::Or(Box::new(qualify_all(l)), Box::new(qualify_all(r))),
+        other => other.clone(),
+    }
+}
+
+pub fn irrefutable_on(u: &Universe, ty: &Ty, p: &Pat) -> bool {
+    u.values(ty, 4).iter().all(|x| matches(p, x))
 }
